@@ -70,7 +70,14 @@ class UserDeleteNode(ActionGroup):
             )
 
         # delete node
-        self.actions.append(DeleteNode(tracks, node, pixels=pixels))
+        try:
+            self.actions.append(DeleteNode(tracks, node, pixels=pixels))
+        except Exception:
+            # DeleteNode refused its arguments (e.g. pixels that cannot be written):
+            # invert the sub-actions applied so far, so that nothing has changed
+            for action in reversed(self.actions):
+                action.inverse()
+            raise
 
         if _top_level:
             self.tracks.action_history.add_new_action(self)
